@@ -3,7 +3,7 @@
 # Creates /tmp/abtem-dev-<name>: a copy of /repo's working tree (no .git) with the given
 # patches applied; use with VERIF_REPO=/tmp/abtem-dev-<name> ./run.sh <id> quick
 set -eu
-D=/tmp/abtem-dev-$1; shift
+D=/tmp/abtem-dev-$1; shift; ARGS=(); for P in "$@"; do ARGS+=("$(readlink -f "$P")"); done; set -- "${ARGS[@]}"
 rm -rf "$D"; mkdir -p "$D"
 rsync -a --exclude .git --exclude '*.pyc' --exclude __pycache__ /repo/ "$D/"
 for P in "$@"; do ( cd "$D" && patch -p1 -s < "$(readlink -f "$P")" ); done
